@@ -1,6 +1,7 @@
 // Engine h_pool: generic case runner (programs against one pool) and the scripted resize interleavings.
 #include "h_pool_run.h"
 
+#include <functional>
 #include <new>
 
 using dispenso::ConcurrentTaskSet;
@@ -275,6 +276,36 @@ bool waitAllParked(int n) {
   return false;
 }
 
+// tryWait loop with a state-based stranded verdict: task(s) outstanding, no body running, a ring with
+// index >= the published ring count non-empty, and no progress over 4000 polls.
+template <typename TS>
+bool boundedWait(TS& ts, ThreadPool& pool, ScriptObs& so) {
+  long stable = 0, lastFin = -1;
+  for (;;) {
+    bool ok;
+    {
+      WaitScope w;
+      ok = ts.tryWait(32);
+    }
+    ++so.polls;
+    if (ok) return true;
+    long fin = g.finished.load(std::memory_order_relaxed);
+    long beyond = static_cast<long>(pool.verifRingsNonEmptyBeyond());
+    bool nothingRunning = g.started.load(std::memory_order_relaxed) == fin;
+    if (fin == lastFin && beyond > 0 && nothingRunning) ++stable;
+    else stable = 0;
+    lastFin = fin;
+    if ((so.polls & 511) == 511) vrt::progress(); // bounded by the poll count
+    if (stable >= 4000) {
+      so.stranded = true;
+      so.strandedTasks = static_cast<long>(ts.verifOutstanding());
+      so.ringsBeyond = beyond;
+      return false;
+    }
+    usleep(50);
+  }
+}
+
 template <typename TS>
 struct RingProducer {
   // Submits `count` tasks through scheduleBulk (ring fast path) and then waits; with the bounded probe the
@@ -289,33 +320,11 @@ struct RingProducer {
       WaitScope w;
       ts.wait();
     } else {
-      long stable = 0, lastFin = -1;
-      for (;;) {
-        bool ok;
-        {
-          WaitScope w;
-          ok = ts.tryWait(32);
-        }
-        ++so.polls;
-        if (ok) break;
-        long fin = g.finished.load(std::memory_order_relaxed);
-        long beyond = static_cast<long>(pool.verifRingsNonEmptyBeyond());
-        bool nothingRunning = g.started.load(std::memory_order_relaxed) == fin;
-        if (fin == lastFin && beyond > 0 && nothingRunning) ++stable;
-        else stable = 0;
-        lastFin = fin;
-        if ((so.polls & 511) == 511) vrt::progress(); // bounded by the poll count
-        if (stable >= 4000) {
-          so.stranded = true;
-          so.strandedTasks = static_cast<long>(ts.verifOutstanding());
-          so.ringsBeyond = beyond;
-          phase.store(3, std::memory_order_release); // ask main to rescue (resize drains every ring)
-          while (phase.load(std::memory_order_acquire) < 4) usleep(50);
-          WaitScope w;
-          ts.wait();
-          break;
-        }
-        usleep(50);
+      if (!boundedWait(ts, pool, so)) {
+        phase.store(3, std::memory_order_release); // ask main to rescue (resize drains every ring)
+        while (phase.load(std::memory_order_acquire) < 4) usleep(50);
+        WaitScope w;
+        ts.wait();
       }
     }
     checkBarrier(mon, 1);
@@ -405,8 +414,15 @@ ScriptObs runScript(const ScriptSpec& s) {
             subTsBulk(ts, b, static_cast<uint32_t>(cnt), mkProto(A_NONE, 0, 0, 0, &m2, kNoParent, 0));
             vrt::gateOpen(site);
             rz.join();
-            WaitScope w;
-            ts.wait();
+            if (!boundedWait(ts, *pool, so)) {
+              {
+                ResizeScope r;
+                pool->resize(tgt + 1); // rescue: a resize drains every ring
+              }
+              tgt = tgt + 1;
+              WaitScope w;
+              ts.wait();
+            }
           }
           checkBarrier(m2, 1);
         } else {
@@ -419,8 +435,15 @@ ScriptObs runScript(const ScriptSpec& s) {
             subTsBulk(ts, b, static_cast<uint32_t>(cnt), mkProto(A_NONE, 0, 0, 0, &m2, kNoParent, 0));
             vrt::gateOpen(site);
             rz.join();
-            WaitScope w;
-            ts.wait();
+            if (!boundedWait(ts, *pool, so)) {
+              {
+                ResizeScope r;
+                pool->resize(tgt + 1);
+              }
+              tgt = tgt + 1;
+              WaitScope w;
+              ts.wait();
+            }
           }
           checkBarrier(m2, 1);
         }
@@ -521,4 +544,93 @@ ScriptObs runScript(const ScriptSpec& s) {
   g.pool = nullptr;
   monRemember();
   return so;
+}
+
+// ------------------------------------------------------------------ scripted shutdown with the hint race
+DtorHintObs runDtorHintScript(int N) {
+  DtorHintObs ho;
+  monReset();
+  ThreadPool* pool = new ThreadPool(static_cast<size_t>(N), 32);
+  g.pool = pool;
+  vrt::progress();
+  auto pollUntil = [](const std::function<bool()>& f, long maxPolls) {
+    for (long i = 0; i < maxPolls; ++i) {
+      if (f()) return true;
+      usleep(50);
+      if ((i & 511) == 511) vrt::progress();
+    }
+    return f();
+  };
+  uint32_t parentId = 0;
+  {
+    // 1. one ring task per worker, each held until released: every worker that pops its ring task prefers
+    //    its ring from now on (the hint-clear hook site is on that path)
+    SetMon m;
+    m.kind = 1;
+    TaskSet ts(*pool);
+    m.sched.fetch_add(N, std::memory_order_relaxed);
+    uint32_t b = newIds(static_cast<uint32_t>(N));
+    subTsBulk(ts, b, static_cast<uint32_t>(N), mkProto(A_GATE, F_GATE, 0, 0, &m, kNoParent, 0));
+    if (!pollUntil([&]() { return g.gatesStarted.load(std::memory_order_relaxed) >= N; }, 100000)) {
+      ho.reached = false;
+      ho.why = "ring tasks did not all start on workers";
+    }
+    // 2. the phased parent is queued (hint set), the gate at the hint-clear site is armed, the ring tasks end
+    parentId = newIds(1);
+    subPoolFQ(*pool, mkTask(parentId, A_PHASED, F_FQ, 0, 0, nullptr, kNoParent, 0));
+    vrt::gateArm(V::kPoolFindBeforeHintClear);
+    g.release.store(1, std::memory_order_relaxed);
+    if (!pollUntil([&]() { return m.done.load(std::memory_order_relaxed) >= N; }, 100000)) {
+      ho.reached = false;
+      ho.why = "ring tasks did not finish";
+    }
+    // wait() must find nothing outstanding: a waiter with outstanding work would steal the queued parent
+    pollUntil([&]() { return ts.verifOutstanding() == 0; }, 100000);
+    {
+      WaitScope w;
+      ts.wait();
+    }
+    checkBarrier(m, 1);
+  }
+  bool parked = ho.reached && vrt::gateWaitArrived(V::kPoolFindBeforeHintClear, 3000);
+  bool parentOnWorker = ho.reached && pollUntil([&]() { return g.phasedStarted.load(std::memory_order_relaxed) == 1; }, 60000);
+  if (ho.reached && (!parked || !parentOnWorker)) {
+    ho.reached = false;
+    ho.why = !parked ? "no worker parked at the hint-clear site" : "phased parent did not start";
+  }
+  // 3. ~ThreadPool on a helper thread; it stops the workers, drains the (empty) queue and blocks in join
+  vrt::gateArm(V::kPoolDtorAfterStop);
+  std::thread dtor([&]() {
+    tl.role = 1;
+    ++tl.inDtor;
+    g.poolDying.store(true, std::memory_order_relaxed);
+    delete pool;
+    --tl.inDtor;
+  });
+  bool dArr = vrt::gateWaitArrived(V::kPoolDtorAfterStop, 20000);
+  vrt::gateOpen(V::kPoolDtorAfterStop);
+  if (!dArr && ho.reached) {
+    ho.reached = false;
+    ho.why = "destructor gate not reached";
+  }
+  usleep(5000); // schedule shaping only: lets the destructor finish its first drain and block in join
+  vrt::progress();
+  // 4. the parent force-queues its child (hint := true) and keeps running
+  g.phase.store(1, std::memory_order_relaxed);
+  pollUntil([&]() { return g.phasedKidQueued.load(std::memory_order_relaxed) == 1 || g.phasedStarted.load(std::memory_order_relaxed) == 0; }, 60000);
+  // 5. the parked worker clears the hint over the queued child and exits
+  vrt::gateOpen(V::kPoolFindBeforeHintClear);
+  usleep(5000); // schedule shaping only
+  // 6. the parent returns; its worker sees the hint cleared and exits; join completes
+  g.phase.store(2, std::memory_order_relaxed);
+  dtor.join();
+  g.poolDead.store(true, std::memory_order_relaxed);
+  vrt::progress();
+  vrt::hooksReset();
+  collect(ho.c);
+  uint32_t kid = parentId + 1;
+  if (kid < ho.c.ids) ho.kidRanInDtor = g.cls[kid].load(std::memory_order_relaxed) == C_H_DTOR;
+  g.pool = nullptr;
+  monRemember();
+  return ho;
 }
